@@ -448,10 +448,3 @@ Proof.
   rewrite Ec. destruct o; reflexivity.
 Qed.
 
-Print Assumptions tsum_swap.
-Print Assumptions swap_eval.
-Print Assumptions swap_eval_idx.
-Print Assumptions swap_eval_surface.
-Print Assumptions swap_eval_volume.
-Print Assumptions swap_wf.
-Print Assumptions swap_involution.
